@@ -17,7 +17,9 @@ void mpq_ILLlp_rows_clear(mpq_ILLlp_rows *r) { }
 int ILLsymboltab_delete(ILLsymboltab *h, const char *s) { return 0; }
 int mpq_ILLbasis_load(mpq_lpinfo *lp, mpq_ILLlp_basis *B) { g_load_calls++; return 0; }
 #define NS 2
+#ifndef NR
 #define NR 2
+#endif
 #define NC (NS + NR)
 #define MAXSZ (NC * 3 + 3)
 static int pick(int lo_, int hi_) { int v = (int) (nondet_uint() & 7u) + lo_; ASSUME(v <= hi_); return v; }
@@ -102,7 +104,7 @@ void harness(void)
 	mpq_lpinfo *lp;
 	mpq_ILLlp_basis *B = 0; mpq_ILLlp_cache *C = 0;
 	int rv, num, del[2], i, j, r, bok = -1, cok = -1, valid = 1, f;
-	char cst[NS], rst[NR]; int piv[NR], slv[NR];
+	char cst[NS], rst[NR]; int piv[NR], slv[NR], rnv[NR], has_rn = 0;
 	qsv_init_globals();
 	build();
 	lp = qsv_mk_lpinfo(O);
@@ -112,16 +114,17 @@ void harness(void)
 		for (r = 0; r < NR; r++) { rst[r] = (char) ('0' + pick(0, 2)); B->rstat[r] = rst[r]; }
 		{ int nb = 0; for (j = 0; j < NS; j++) nb += cst[j] == '1'; for (r = 0; r < NR; r++) nb += rst[r] == '1'; ASSUME(nb == NR); }	/* a basis has one basic variable per row */
 		B->rownorms = nondet_bool() ? qsv_numarray(NR) : 0; B->colnorms = nondet_bool() ? qsv_numarray(NS) : 0;
+		if (B->rownorms) { has_rn = 1; for (r = 0; r < NR; r++) { rnv[r] = qsv_nondet_payload(); qsv_setnum(B->rownorms[r], rnv[r]); } }
 		if (nondet_bool()) { C = qsv_alloc(sizeof *C); C->nstruct = NS; C->nrows = NR; C->x = qsv_numarray(NS); C->rc = qsv_numarray(NS); C->pi = qsv_numarray(NR); C->slack = qsv_numarray(NR);
 			for (r = 0; r < NR; r++) { piv[r] = qsv_nondet_payload(); slv[r] = qsv_nondet_payload(); qsv_setnum(C->pi[r], piv[r]); qsv_setnum(C->slack[r], slv[r]); } }
 	}
-	num = pick(0, 2); del[0] = pick(0, 3) - 1; del[1] = pick(0, 3) - 1;
+	num = pick(0, 2); del[0] = pick(0, NR + 1) - 1; del[1] = pick(0, NR + 1) - 1;
 	if (num == 2) ASSUME(del[0] != del[1]);		/* the list names distinct rows / columns */
 #if defined(FN_delrows)
 	for (i = 0; i < 2; i++) if (i < num && (del[i] < 0 || del[i] >= NR)) valid = 0;
 	rv = mpq_ILLlib_delrows(lp, B, C, num, del, &bok, &cok);
 	ASSERT((rv == 0) == valid, "C07: accepted iff every listed row index is in range");
-	if (rv != 0) { check_wf(NC, NR); ASSERT(NUMV(O->rhs[0]) == rhsv[0] && NUMV(O->rhs[1]) == rhsv[1] && O->sense[0] == sensev[0] && O->sense[1] == sensev[1] && O->rownames[0] == rname[0] && O->rownames[1] == rname[1], "C07: a rejected deletion leaves the rows untouched"); }
+	if (rv != 0) { check_wf(NC, NR); for (r = 0; r < NR; r++) ASSERT(NUMV(O->rhs[r]) == rhsv[r] && O->sense[r] == sensev[r] && O->rownames[r] == rname[r], "C07: a rejected deletion leaves the rows untouched"); }
 	else {
 		int keep[NR], newi[NR], nk = 0, gone[NR];
 		for (r = 0; r < NR; r++) { gone[r] = 0; for (i = 0; i < 2; i++) if (i < num && del[i] == r) gone[r] = 1; keep[r] = !gone[r]; newi[r] = nk; nk += keep[r]; }
@@ -137,7 +140,12 @@ void harness(void)
 		if (B && num > 0) {
 			int allbasic = 1; for (r = 0; r < NR; r++) if (gone[r] && rst[r] != '1') allbasic = 0;
 			ASSERT(bok == allbasic, "C05/C12: the basis survives a row deletion iff every deleted row's logical was basic");
-			if (bok) { ASSERT(B->nrows == NR - num && g_load_calls == 1, "C12: a surviving basis has the new row count and is reloaded"); for (r = 0; r < NR; r++) if (keep[r]) ASSERT(B->rstat[newi[r]] == rst[r], "C12: row statuses of a surviving basis are the survivors in order"); }
+			if (bok) { ASSERT(B->nrows == NR - num && g_load_calls == 1, "C12: a surviving basis has the new row count and is reloaded"); for (r = 0; r < NR; r++) if (keep[r]) ASSERT(B->rstat[newi[r]] == rst[r], "C12: row statuses of a surviving basis are the survivors in order");
+				if (has_rn) {	/* row norms are stored per BASIS POSITION: basic structurals first, then basic rows in row order */
+					int kb = 0, oldpos, newpos; for (j = 0; j < NS; j++) kb += cst[j] == '1';
+					oldpos = kb; newpos = kb;
+					for (r = 0; r < NR; r++) if (rst[r] == '1') { if (keep[r]) { ASSERT(B->rownorms != 0 && NUMV(B->rownorms[newpos]) == rnv[oldpos], "C17/C05: the retained pricing norm of every surviving basic row is its own old norm"); newpos++; } oldpos++; }
+				} }
 		}
 		if (num > 0 && cok == 1) {
 			ASSERT(B != 0 && C != 0 && bok == 1, "C05: the cached solution is kept only together with the basis");
